@@ -134,6 +134,16 @@ class Run:
             self.violations.append(None)
         return True
 
+    def deviation(self, spec, clause, case=None):
+        """The code departs from a growth specification on behaviour that the PROPERTY does not speak about (layout choices,
+        heuristics, naming).  Reported on its own channel: a SPEC-DEVIATION line and the evidence file, never a VIOLATION, and it
+        does not change the exit code - a change of such behaviour leaves the property true."""
+        if not hasattr(self, "deviations"):
+            self.deviations = []
+        if os.environ.get("VERIF_DEBUG"):
+            print("  [debug] deviation from %s: %s" % (spec, clause))
+        self.deviations.append({"spec": spec, "clause": clause, "case": jsonable(case) if len(self.deviations) < 10 else None})
+
     def finish(self):
         wall = time.time() - self.t0
         os.makedirs(EVID, exist_ok=True)
@@ -152,6 +162,16 @@ class Run:
             "explanation": self.rule,
         }
         cov.update(self.extra)
+        devs = getattr(self, "deviations", [])
+        if devs:
+            cov["spec_deviations_outside_the_property"] = {"count": len(devs), "first": [d for d in devs[:10]]}
+            seen = set()
+            for d in devs:
+                k = (d["spec"], d["clause"][:60])
+                if k in seen or len(seen) >= 5:
+                    continue
+                seen.add(k)
+                print("SPEC-DEVIATION: spec=%s %s" % (d["spec"], d["clause"]))
         ev = {
             "property_id": self.pid,
             "tier": self.tier,
